@@ -222,7 +222,12 @@ def scripted(rng, parents, steps, fail_p=0.25, rich=True, first=-1, end=True, no
     for k in range(steps):
         t = k + 2
         ticks = t
-        dest = rng.randrange(n)
+        # choose the KIND of transition first (sibling / cousin / ancestor / descendant / self / other tree …)
+        # so that rare topologies are as frequent as common ones
+        kinds = {}
+        for d in range(n):
+            kinds.setdefault(relation(lit, cur, d), []).append(d)
+        dest = rng.choice(kinds[rng.choice(sorted(kinds))])
         A = pile_of(lit, cur)
         holder = rng.choice(A)
         # decoy goacts that never fire / fire but precondition fails, placed before the real one
